@@ -12,7 +12,9 @@ CONF = {
     ],
     "go": [{"pkg": "pkg/scheduler/plugins/elasticquota/core", "test": "TestVerifC02"},
            {"pkg": "pkg/scheduler/plugins/elasticquota/core", "test": "TestVerifC02Tree",
-            "trace": {"module": "QuotaTreeTrace", "cfg": "Trace_C02_tree.cfg"}}],
+            "trace": {"module": "QuotaTreeTrace", "cfg": "Trace_C02_tree.cfg"},
+            # the calculator's cached copies of the inputs (req/min/w/guar) are deliberately not trusted: corrupt outputs only
+            "selftest_keys": ("rt", "result")}],
     "trace": {"module": "RuntimeShareTrace", "cfg": "Trace_C02.cfg"},
     "signature": sig,
     "rule": "one segment per sibling set + total; distinct by content; non-trivial = has the share event",
